@@ -103,6 +103,7 @@ type ex struct {
 	shortAt   time.Time // when the oldest unexpired short-lived certificate was handed out
 	last      *x509.Certificate // leaf most recently served by get/hs (ops vhl, vwl)
 	lastHost  string            // the host that request named (SNI or fallback)
+	tainted   bool              // real time ran ahead of the model's clock: oracle only from here on
 }
 
 func (P) NewExec() core.Exec {
@@ -344,13 +345,26 @@ func (e *ex) tlsConfig(mode, fb string) *tls.Config {
 	return e.cfg().TLSForHost(fb)
 }
 
+// hazard: the model's clock advances 1 ms per op; the real one does whatever the machine allows. A 2-second leaf
+// expires between 1 and 2 s after it was handed out, so an op that comes later than 900 ms after the first such
+// leaf (and before the `expire` op) may see it expired while the model still reuses it. That is a property of the
+// schedule, not of the code: from then on the case is judged by the oracle alone (SkipModel), never compared.
 func (e *ex) hazard() {
-	if !e.shortAt.IsZero() && time.Since(e.shortAt) > 900*time.Millisecond {
-		core.Count("timing-hazard(op-later-than-900ms-after-short-cert)")
+	if !e.shortAt.IsZero() && time.Since(e.shortAt) > 900*time.Millisecond && !e.tainted {
+		core.Count("timing-hazard(op-later-than-900ms-after-short-cert):rest-of-case-oracle-only")
+		e.tainted = true
 	}
 }
 
 func (e *ex) Do(op string) core.Result {
+	r := e.do(op)
+	if e.tainted {
+		r.SkipModel = true
+	}
+	return r
+}
+
+func (e *ex) do(op string) core.Result {
 	t := strings.Fields(op)
 	if len(t) == 0 {
 		return core.Result{Impl: "bad-op"}
